@@ -23,7 +23,12 @@ import CG.Proofs.IndexRefine
 #print axioms CG.IndexRefine.preG_insEdge_of_checks
 #print axioms CG.IndexRefine.preG_setEdge
 #print axioms CG.IndexRefine.addEdgeE_is_run
-#print axioms CG.IndexRefine.all_mutators_are_runs_partial
+#print axioms CG.IndexRefine.elem_is_prim
+#print axioms CG.IndexRefine.chain_is_run
+#print axioms CG.IndexRefine.stepRef_is_run
+#print axioms CG.IndexRefine.runRef_is_run
+#print axioms CG.IndexRefine.history_refines
+#print axioms CG.IndexRefine.setEdgeImpl_is_run
 #print axioms CG.IndexRefine.reader_getEdges_source
 #print axioms CG.IndexRefine.reader_getEdges_destination
 #print axioms CG.IndexRefine.reader_getParents
